@@ -255,6 +255,24 @@ where
 
 /// Intermiediate proxy to set additional information
 /// before sending an execute message.
+/// Converts an error reported by the test chain into the error type of the contract.
+///
+/// An error returned by the contract comes back as it is, a [StdError] is converted,
+/// and any other error of the chain (bank, missing contract, authorization, ...) is
+/// reported as a generic error carrying its text instead of panicking.
+pub fn downcast_error<Error>(err: anyhow::Error) -> Error
+where
+    Error: From<StdError> + Debug + Display + Send + Sync + 'static,
+{
+    if err.is::<Error>() {
+        err.downcast::<Error>().unwrap()
+    } else if err.is::<StdError>() {
+        err.downcast::<StdError>().unwrap().into()
+    } else {
+        StdError::generic_err(err.to_string()).into()
+    }
+}
+
 #[must_use]
 pub struct ExecProxy<'a, 'app, Error, Msg, MtApp, ExecC>
 where
@@ -301,15 +319,7 @@ where
                 &self.msg,
                 self.funds,
             )
-            .map_err(|err| {
-                if err.is::<Error>() {
-                    err.downcast::<Error>().unwrap()
-                } else if err.is::<StdError>() {
-                    err.downcast::<StdError>().unwrap().into()
-                } else {
-                    StdError::generic_err(err.to_string()).into()
-                }
-            })
+            .map_err(downcast_error)
     }
 }
 
@@ -330,7 +340,7 @@ where
 impl<'a, 'app, Error, Msg, MtApp, ExecC> MigrateProxy<'a, 'app, Error, Msg, MtApp, ExecC>
 where
     Msg: Serialize + Debug,
-    Error: Debug + Display + Send + Sync + 'static,
+    Error: From<StdError> + Debug + Display + Send + Sync + 'static,
     ExecC: cosmwasm_std::CustomMsg + 'static,
     MtApp: Executor<ExecC>,
 {
@@ -358,7 +368,7 @@ where
                 &self.msg,
                 new_code_id,
             )
-            .map_err(|err| err.downcast().unwrap())
+            .map_err(downcast_error)
     }
 }
 
